@@ -23,7 +23,7 @@ use crate::{
         get_margin_ratio_calc_option, get_position, get_position_notional_unrealized_pnl,
         position_to_side, require_additional_margin, require_bad_debt, require_insufficient_margin,
         require_non_zero_input, require_not_paused, require_not_restriction_mode,
-        require_position_not_zero, require_vamm, side_to_direction,
+        require_position_not_zero, require_position_owner, require_vamm, side_to_direction,
     },
 };
 use margined_common::{
@@ -142,6 +142,10 @@ pub fn open_position(
     // retrieves existing position or creates a new one
     let position: Position = get_position(env, deps.storage, &vamm, &trader, side.clone());
 
+    // the storage key is the plain concatenation of both addresses: a record found under it
+    // may belong to another trader on another vamm
+    require_position_owner(&position, &trader)?;
+
     // if direction and side are same way then increasing else we are reversing; a cleared
     // record (size zero) holds nothing to reverse, whatever direction it still carries
     let is_increase: bool = position.size.is_zero()
@@ -225,6 +229,7 @@ pub fn close_position(
 
     // read the position for the trader from vamm
     let position = read_position(deps.storage, &vamm, &trader).unwrap();
+    require_position_owner(&position, &trader)?;
 
     // check the position isn't zero
     require_not_paused(state.pause)?;
@@ -349,6 +354,7 @@ pub fn liquidate(
 
     // read the position for the trader from vamm
     let position = read_position(deps.storage, &vamm, &trader).unwrap();
+    require_position_owner(&position, &trader)?;
 
     // check the position isn't zero
     require_position_not_zero(position.size.value)?;
@@ -476,6 +482,7 @@ pub fn withdraw_margin(
 
     // read the position for the trader from vamm
     let mut position = read_position(deps.storage, &vamm, &trader).unwrap();
+    require_position_owner(&position, &trader)?;
 
     let remain_margin = calc_remain_margin_with_funding_payment(
         deps.as_ref(),
